@@ -52,6 +52,21 @@ Theorem C08_invalidate_all : forall fuel l s s',
 Proof. exact rfold_invalidate_all. Qed.
 Print Assumptions C08_invalidate_all.
 
+(* invalidating a bind's main node invalidates the nodes of its right-hand side *)
+Theorem C08_invalidate_main_invalidates_rhs : forall fuel s n b s',
+  invalidateNode (S fuel) s n = Ok s' -> valid (nd s n) = true -> nkind (nd s n) = KBindMain b ->
+  forall r, r ∈ b_rhsNodes (bd s b) -> is_Some (nodes s !! r) -> valid (nd s' r) = false.
+Proof. exact C08_invalidate_main_invalidates_rhs. Qed.
+Print Assumptions C08_invalidate_main_invalidates_rhs.
+
+(* every node that an invalidation takes from valid to invalid has its [EvInval] in the log *)
+Theorem C08_invalidate_logs : forall fuel s n s',
+  invalidateNode fuel s n = Ok s' ->
+  exists L, log s' = L ++ log s /\
+    forall r, valid (nd s r) = true -> valid (nd s' r) = false -> EvInval r ∈ L.
+Proof. exact invalidate_logs. Qed.
+Print Assumptions C08_invalidate_logs.
+
 (* [ex08] = [NewVar 1 false; NewBind [TMap (Aff 1 0) (TMap (Aff 1 0) TX)] 0; Observe 2; Stabilize []]:
    bind 1 (nodes 1, 2), right-hand side 4 -> 5 -> 6 *)
 Example C08_ex_invalidate :
@@ -59,7 +74,8 @@ Example C08_ex_invalidate :
   valid (nd s 6%nat) = true /\ b_rhsNodes (bd s 1%nat) = [4; 5; 6]%nat /\
   match invalidateNode 20 (s <| log := [] |>) 2%nat with   (* the bind's main node *)
   | Ok s' => map (fun n => valid (nd s' n)) [2; 4; 5; 6]%nat = [false; false; false; false] /\
-             map (inHeap s') [2; 4; 5; 6]%nat = [false; false; false; false]
+             map (inHeap s') [2; 4; 5; 6]%nat = [false; false; false; false] /\
+             omap (fun e => match e with EvInval m => Some m | _ => None end) (rev (log s')) = [2; 4; 5; 6]%nat
   | _ => False end.
 Proof. vm_compute. repeat split. Qed.
 
@@ -78,6 +94,14 @@ Theorem C08_old_generation_not_queued : forall fuel l s s1 s',
   INQ s' /\ forall r, r ∈ l -> is_Some (nodes s !! r) -> valid (nd s' r) = false /\ inHeap s' r = false.
 Proof. exact C08_old_generation_not_queued. Qed.
 Print Assumptions C08_old_generation_not_queued.
+
+(* and each of them that was still valid gets its [EvInval] *)
+Theorem C08_old_generation_logged : forall fuel l s s',
+  rfold (invalidateNode fuel) l s = Ok s' ->
+  exists L, log s' = L ++ log s /\
+    forall r, r ∈ l -> is_Some (nodes s !! r) -> valid (nd s r) = true -> EvInval r ∈ L.
+Proof. exact C08_old_generation_logged. Qed.
+Print Assumptions C08_old_generation_logged.
 
 Theorem C08_propagateInvalidity_valid : forall fuel s s', propagateInvalidity fuel s = Ok s' ->
   (forall r, valid (nd s r) = false -> valid (nd s' r) = false) /\ (INQ s -> INQ s').
@@ -110,10 +134,14 @@ Proof. vm_compute. repeat split. Qed.
     [C08_invalidate_keeps_queue_clean], [C08_propagateInvalidity_valid]); the sites that do not
     test are listed at [C08_popped_invalid_does_not_run_refuted] in EngineLocal.v. *)
 Theorem C08_popped_invalid_does_not_run_refuted :
-  exists s s', run (init 256) ex08_invalid_queued = Ok s /\
-    valid (nd s 6%nat) = false /\ inHeap s 6%nat = true /\
-    stabilize [] false (s <| log := [] |>) = Ok (s', None) /\
-    rev (log s') = [EvPassStart; EvInvoked 6%nat [1; 2] 3; EvPassEnd XOk; EvUpd 6%nat; EvObsUpd 7%nat 3].
+  let s := reach ex08_invalid_queued in
+  is_ok (run (init 256) ex08_invalid_queued) = true /\
+  valid (nd s 6%nat) = false /\ inHeap s 6%nat = true /\
+  match stabilize [] false (s <| log := [] |>) with
+  | Ok (s', e) => e = None /\
+      rev (log s') = [EvPassStart; EvInvoked 6%nat [1; 2] 3; EvPassEnd XOk; EvUpd 6%nat; EvObsUpd 7%nat 3]
+  | _ => False
+  end.
 Proof. exact C08_popped_invalid_does_not_run_refuted. Qed.
 Print Assumptions C08_popped_invalid_does_not_run_refuted.
 
